@@ -2322,7 +2322,8 @@ fn parse_json_seq(s: &str) -> Vec<OwnedValue> {
         }
 
         // Try to parse as JSON, silently ignore failures
-        if validate::validate(segment.as_bytes()).is_ok() {
+        let validation = validate::validate(segment.as_bytes());
+        if validation.is_ok() || seq_record_only_too_deep(&validation, segment.as_bytes()) {
             values.push(crate::output::json_bytes_to_owned_value(segment.as_bytes()));
         } else {
             let normalized = normalize_leading_zero_numbers(segment);
@@ -2334,6 +2335,27 @@ fn parse_json_seq(s: &str) -> Vec<OwnedValue> {
     }
 
     values
+}
+
+/// Whether a `--seq` record's strict validation stopped at the validator's
+/// own recursion cap (128 levels) rather than at a grammar error -- the case
+/// of a valid JSON text that every other input route accepts and prints up
+/// to the evaluator's `MAX_NESTING_DEPTH` (256). Dropping it silently (no output, exit 0) lost
+/// data only under `--seq`. Such a record falls back to the lenient span
+/// scanner exactly as `parse_json_stream` does for the plain input route: it
+/// is kept when that scanner sees one value spanning the whole record.
+fn seq_record_only_too_deep(
+    validation: &core::result::Result<(), ValidationError>,
+    record: &[u8],
+) -> bool {
+    use succinctly::json::validate::ValidationErrorKind;
+    matches!(
+        validation,
+        Err(ValidationError {
+            kind: ValidationErrorKind::NestingTooDeep { .. },
+            ..
+        })
+    ) && matches!(find_json_values(record).as_deref(), Ok([(0, end)]) if *end == record.len())
 }
 
 /// Validate that the DSV delimiter is acceptable.
